@@ -113,15 +113,20 @@ def LiveCyc (s : MState) (c : Nat) : Prop :=
 theorem startUnit_hostUdp (s : MState) (c gen : Nat) (u : GUnit) (hk : u.kind = .hostUdp)
     (hpr : portRange s.cfg = none) (hl : LiveCyc s c) :
     ∃ mc ∈ (startUnit s c gen u).cands, mc.d = unitCand s.cfg u 0 0 := by
-  obtain ⟨kind, net, bind, url, n⟩ := u
+  obtain ⟨kind, net, bind, url, n, mapped⟩ := u
   simp only at hk
   subst hk
   have hfree : freePorts s bind = 1 := by simp [freePorts, hpr]
   have hpf : ownPortFlag s.cfg = PFlag.e := by simp [ownPortFlag, hpr]
-  refine ⟨{ d := unitCand s.cfg ⟨.hostUdp, net, bind, url, n⟩ 0 0, gen := s.cyc.gen,
+  have hp0 : s.cfg.portMin = 0 := by
+    unfold portRange at hpr
+    split at hpr
+    · rename_i h; simp only [Bool.and_eq_true, beq_iff_eq] at h; exact h.1
+    · simp at hpr
+  refine ⟨{ d := unitCand s.cfg ⟨.hostUdp, net, bind, url, n, mapped⟩ 0 0, gen := s.cyc.gen,
             res := [{ kind := .sock, tag := s.cyc.gen, addr := bind, inRange := (portRange s.cfg).isSome }] }, ?_, rfl⟩
   simp [startUnit, progOf, hostUdpProg, exec, acquireAns, stepAns, hfree, settle, jobLive, hl.1, hl.2,
-    publishable, unitCand, candEqual, hpf, Job.takeAll, Job.take]
+    publishable, unitCand, candEqual, candEqualIn, zoned, hp0, hpf, Job.takeAll, Job.take]
 
 theorem finishCycle_cands (s : MState) : (finishCycle s).cands = s.cands := by
   unfold finishCycle
